@@ -27,7 +27,9 @@ N_CASES = {"quick": 20000, "thorough": 500000}
 
 def plan(tier, seed):
     shards = 16
-    return [{"n": N_CASES[tier] // shards, "shard": i} for i in range(shards)]
+    shards_ = [{"n": N_CASES[tier] // shards, "shard": i} for i in range(shards)]
+    # plus the repository's own test-suite run with this check's contracts armed (DESIGN 6.4)
+    return shards_ + [{"kind": "suite", "shard": 99}]
 
 
 # ---- reference fold -----------------------------------------------------------------------------------------
@@ -160,6 +162,10 @@ def ref_raire(rows):
 
 
 def run_shard(spec, rec):
+    if spec.get("kind") == "suite":
+        from vlib import suite
+        suite.run_suite("checks.c18", rec)
+        return
     rng = random.Random(f"c18-{spec['seed']}-{spec['shard']}")
     for i in range(spec["n"]):
         if i % 4 < 3:
